@@ -291,6 +291,62 @@ template<class Src, class Dest, class Tag, How how, int SND = 0>
     }
 }
 
+// ---- the elastic-on-rounding nesting scaled_integer<elastic_integer<D, rounding_integer<int, Tag>>, power<E>> ----------
+// (what elastic_scaled_integer with a rounding Narrowest is): narrowing to fewer fractional digits, also by as many or
+// more bits than the source has digits, and conversion to a built-in integer; every source value
+template<class Tag, int SD, int SE, int DD, int DE>
+[[gnu::noinline]] void prog_er()
+{
+    constexpr int mode = tag_info<Tag>::mode;
+    using RI = cnl::rounding_integer<int, Tag>;
+    using Src = scaled_integer<cnl::elastic_integer<SD, RI>, power<SE>>;
+    using Dst = scaled_integer<cnl::elastic_integer<DD, RI>, power<DE>>;
+    std::string name = std::string("er<") + tag_info<Tag>::name + ",elastic_rounding<" + std::to_string(DD) + "," + std::to_string(DE) + "><-elastic_rounding<" + std::to_string(SD) + "," + std::to_string(SE) + ">>";
+    if (!vf::begin(name, true)) return;
+    Big const top = Big::pow2(SD) - Big(1);
+    for (Big r = -top; r <= top; r = r + Big(1)) {
+        if (!vf::my_row()) continue;
+        std::string const id = r.str();
+        if (vf::replaying() && !vf::case_selected(id)) continue;
+        Src sv = build<Src>(r);
+        const char* sg = r.neg ? "neg" : "pos";
+        std::string const lab = (DE - SE >= SD) ? "/narrow_by_at_least_source_digits" : "";
+        {
+            Rat q = Rat::scaled(r, 2, SE - DE);
+            Big want = round_mode(q, mode);
+            if (want.abs() < Big::pow2(DD)) {
+                Big got;
+                vf::Outcome o = vf::run([&] {
+                    Dst d(sv);
+                    got = cv::int_value(cnl::_impl::to_rep(d));
+                });
+                vf::validated();
+                vf::counted(!q.is_integer());
+                const char* cls = q.is_integer() ? "exact" : ((q - Rat(q.floor())) == Rat(Big(1), Big(2)) ? "tie" : "inexact");
+                if (!o.ok() || got != want) {
+                    vf::outcome(o.ok() ? "wrong_value" : o.str());
+                    vf::violation(std::string("er.narrowing/") + (o.ok() ? "value" : o.str()) + "/" + cls + "/" + sg + lab, id, id + ": " + (o.ok() ? "rep " + got.str() : o.str()) + ", expected " + want.str() + " (" + q.str() + " units)");
+                } else
+                    vf::outcome(std::string("ok_") + cls + "_" + sg);
+            } else
+                vf::skip_pre();
+        }
+        {
+            Rat q = Rat::scaled(r, 2, SE);
+            Big want = round_mode(q, mode);
+            long long got = 0;
+            vf::Outcome o = vf::run([&] { got = static_cast<long long>(sv); });
+            vf::validated();
+            const char* cls = q.is_integer() ? "exact" : ((q - Rat(q.floor())) == Rat(Big(1), Big(2)) ? "tie" : "inexact");
+            if (!o.ok() || Big(got) != want) {
+                vf::outcome(o.ok() ? "wrong_value" : o.str());
+                vf::violation(std::string("er.to_integer/") + (o.ok() ? "value" : o.str()) + "/" + cls + "/" + sg + ((-SE >= SD) ? "/narrow_by_at_least_source_digits" : ""), id, id + ": static_cast<long long> gives " + (o.ok() ? std::to_string(got) : o.str()) + ", expected " + want.str());
+            } else
+                vf::outcome(std::string("ok_to_integer_") + cls);
+        }
+    }
+}
+
 template<class Rep, int E, int Radix = 2>
 using SI = scaled_integer<Rep, power<E, Radix>>;
 using E15 = cnl::elastic_integer<15>;
